@@ -40,6 +40,7 @@ MODULES = {
     "listener": ("dns_listener.rs", "crates/erbium-core/src/dns/mod.rs", "verif_listener"),
     "httpsvc": ("http_svc.rs", "crates/erbium-core/src/dhcp/mod.rs", "verif_httpsvc"),      # support for "http": no check of its own
     "http": ("http_list.rs", "crates/erbium-core/src/http.rs", "verif_http_contracts"),
+    "wire": ("dns_wire.rs", "crates/erbium-core/src/dns/dnspkt.rs", "verif_wire"),
 }
 
 
